@@ -76,6 +76,11 @@ def queries(tier):
         for T in ('String', 'SmallString', 'CowB', 'CowO'):
             qs.append(Query('%s prestate type=⟦%d⟧' % (T, n), h_prestate, {'T': T, 'ty': ('hole', 't', n), 'fields': {'name': 'n'}, 'quals': []},
                             bound='type string = every valid-UTF-8 string of %d bytes' % n))
+    # user-written PurlShape implementations whose finish hook edits the parts (the model-shape family of C14)
+    from . import c14
+    for q in c14.queries(tier):
+        q.name = 'user shape ' + q.name
+        qs.append(q)
     return qs
 
 
@@ -88,6 +93,8 @@ def confirm(v, resp):
         return 'panicked: %s' % resp['panic']
     if 'ok' not in resp:
         return None
+    if v['case'].get('op') == 'shape':
+        return concrete_invariant_violation(resp['ok'], builtin=False)
     return concrete_invariant_violation(resp['ok'])
 
 
@@ -95,7 +102,8 @@ def finding_role(v, resp):
     return 'other'
 
 
-vacuity = std_vacuity
+def vacuity(results):
+    return [p for p in std_vacuity(results)]
 LEVEL_TEXT = ('bounded symbolic model checking of the real MIR: every clause of C04 is asserted (solver validity query or decided fork) on every '
               'accepted leaf of the parser templates, every built leaf of the builder scripts, and on build() from builder pre-states '
               'whose public fields and qualifier values are free byte strings (an inductive step: any history reaching such a state is covered)')
